@@ -1,5 +1,6 @@
 import QuantemModel.Core.Proto
 import QuantemModel.Model.Vector
+import QuantemModel.Model.VectorView
 open Lean QuantemModel QuantemModel.Proto QuantemModel.Vector
 
 /-!
@@ -12,8 +13,10 @@ Rationals cross as "num/den" strings.
 namespace DrvC11
 
 structure St where
-  s : State := {}
+  vs : VState := {}
   pool : List Ref := []
+
+def St.s (st : St) : State := st.vs.s
 
 def ratOfString (t : String) : Except String Rat :=
   match t.splitOn "/" with
@@ -163,6 +166,28 @@ def opOfJson (st : St) (j : Json) : Except String Op := do
   | "meta_set" => pure (.metaSet (← natField j "v") (← strField j "k") (← intField j "x"))
   | _ => throw s!"unknown op {op}"
 
+/-- requests that involve objects the caller keeps (held field views, kept flattened arrays) -/
+def vopOfJson (st : St) (j : Json) : Except String VOp := do
+  let op ← strField j "op"
+  match op with
+  | "view_make" => pure (.mkView (← natField j "v") (← strField j "f"))
+  | "view_flatten" => pure (.viewFlatten (← natField j "w"))
+  | "view_op" =>
+      pure (.viewOp (← natField j "w") (← binOfName (← strField j "k"))
+        ((boolField j "neg_int_pow").toOption.getD false) (← rhsOfJson (← field j "rhs")))
+  | "view_set" =>
+      let vals : FlatVal ← match j.getObjVal? "vals" with
+        | .ok (.arr a) => do pure (.oneD (← a.toList.mapM ratOfJson))
+        | _ => pure .notOneD
+      pure (.viewSet (← natField j "w") vals)
+  | "view_restore" => pure (.viewRestore (← natField j "w") (← natField j "kept"))
+  | "view_get" => pure (.viewGet (← natField j "w") (← idxOfJson j))
+  | "kept_mutate" =>
+      let g ← binOfName (← strField j "k")
+      let c ← ratOfJson (← field j "c")
+      pure (.keptMap (← natField j "kept") (g · c))
+  | _ => pure (.base (← opOfJson st j))
+
 def refJson : Option Ref → Json
   | some r => Json.num (JsonNumber.fromNat r)
   | none => Json.null
@@ -188,7 +213,10 @@ def obs (st : St) : Json :=
         Json.arr #[Json.num (JsonNumber.fromNat r), Json.num (JsonNumber.fromNat a.ncols), rowsToJson a.rows,
           Json.bool a.isInt]).toArray),
     ("metas", Json.arr (s.metas.map fun d =>
-        Json.arr (d.map fun (k, x) => Json.arr #[Json.str k, Json.num (JsonNumber.fromInt x)]).toArray).toArray)]
+        Json.arr (d.map fun (k, x) => Json.arr #[Json.str k, Json.num (JsonNumber.fromInt x)]).toArray).toArray),
+    ("kept", Json.arr (st.vs.kept.map fun (xs, t) =>
+        Json.mkObj [("a1", Json.arr (xs.map ratToJson).toArray), ("int", Json.bool t)]).toArray),
+    ("nviews", Json.num (JsonNumber.fromNat st.vs.views.length))]
 
 def npJson : NpVal → Json
   | .arr2 c rows t => Json.mkObj [("a2", rowsToJson rows), ("ncols", Json.num (JsonNumber.fromNat c)), ("int", Json.bool t)]
@@ -215,6 +243,7 @@ def step (st : St) (j : Json) : St × Json :=
   match (do
     let op ← strField j "op"
     if op == "reset" then pure (({} : St), Json.mkObj [("r", okJson Json.null)]) else
+    if op == "nop" then pure (st, Json.mkObj [("r", okJson Json.null), ("obs", obs st)]) else
     if op == "set_attr" then
       -- property setters: outside the operation alphabet, tied to the code by their own small stream
       let vid ← natField j "v"
@@ -228,13 +257,16 @@ def step (st : St) (j : Json) : St × Json :=
         | some v => Json.mkObj [("shape", Json.arr (v.shape.map fun d => Json.num (JsonNumber.fromNat d)).toArray),
             ("fields", Json.arr (v.fields.map Json.str).toArray), ("units", Json.arr (v.units.map Json.str).toArray)]
         | none => Json.null
-      pure ({ st with s := s' }, Json.mkObj [("r", resJson r), ("vec", view)]) else
-    let o ← opOfJson st j
-    let (s', r) := Vector.step st.s o
-    let st' : St := { s := s', pool := poolAfter st.pool r }
+      pure ({ st with vs := { st.vs with s := s' } }, Json.mkObj [("r", resJson r), ("vec", view)]) else
+    let o ← vopOfJson st j
+    let (vs', vr) := Vector.vstep st.vs o
+    let (pool', rj) := match vr with
+      | .res r => (poolAfter st.pool r, resJson r)
+      | .newView k => (st.pool, okJson (Json.mkObj [("view", Json.num (JsonNumber.fromNat k))]))
+    let st' : St := { vs := vs', pool := pool' }
     let out := if (boolField j "obs").toOption.getD true
-      then Json.mkObj [("r", resJson r), ("obs", obs st')]
-      else Json.mkObj [("r", resJson r)]
+      then Json.mkObj [("r", rj), ("obs", obs st')]
+      else Json.mkObj [("r", rj)]
     pure (st', out) : Except String (St × Json)) with
   | .ok r => r
   | .error e => (st, errJson s!"driver:{e}")
